@@ -82,6 +82,21 @@ def cases(ctx):
         vals.insert(rng.randrange(len(vals) + 1), rng.choice(vals))
         c["expect"] = "duplicate"
         yield c
+    # values that are equal but of different types (1 / 1.0 / True, 0 / 0.0 / False) index the SAME slot: the grid must
+    # either be refused before anything runs, or (if accepted) still place every result correctly
+    for i in range(ctx.pick(12, 120)):
+        c = _gen_case(rng, {"name": rng.choice(["seq", "shuffle_int", "fake_submit"]), "seed": rng.randint(2, 99), "perm_seed": i})
+        j = rng.randrange(len(c["combos"]))
+        twin = rng.choice([[1, 1.0], [0, 0.0], [1, True], [2, 2.0], [0.0, False], [3.0, 3]])
+        rng.shuffle(twin)
+        vals = [v for v in c["combos"][j][1] if not isinstance(v, str) and v not in (0, 1, 2, 3)][:2]
+        vals.insert(rng.randrange(len(vals) + 1), twin[0])
+        vals.insert(rng.randrange(len(vals) + 1), twin[1])
+        c["combos"][j][1] = vals
+        c["values_as"] = "list"
+        c["flat"] = False
+        c["expect"] = "duplicate_or_correct"
+        yield c
     # every completion permutation of a small grid, on both held-task executors
     nperm = ctx.pick(4, 6)
     shapes = {4: [[["b", [3, 1]], ["a", ["u", "v"]]]], 6: [[["b", [3, 1, 2]], ["a", ["u", "v"]]],
@@ -223,6 +238,10 @@ def run_case(ctx, case):
         ctx.observe(case, key=("dup", [len(v) for _, v in combos]), info={"raised": repr(err)[:80]})
         return
 
+    if case.get("expect") == "duplicate_or_correct" and isinstance(err, XYZError) and not logged:
+        ctx.count("cross_type_duplicates_refused")
+        ctx.observe(case, key=("xdup", [len(v) for _, v in combos], name), info={"raised": repr(err)[:80]})
+        return
     if err is not None:
         ctx.violation(case, "combo_runner raised %r" % (err,), dict(sig0, oracle="no-exception", **exc_sig(err)))
         ctx.observe(case, nontrivial=False)
